@@ -195,7 +195,9 @@ def _get_hash_const(name):
         or None if hash can't be located.
     """
     # check hashlib.<attr> for an efficient constructor
-    if not name.startswith("_") and name not in ("new", "algorithms"):
+    # NOTE: hashlib has other attributes as well (scrypt, pbkdf2_hmac, file_digest,
+    #       algorithms_available ...); only the listed algorithms are constructors.
+    if name in hashlib.algorithms_guaranteed:
         try:
             return getattr(hashlib, name)
         except AttributeError:
